@@ -8,6 +8,7 @@ import (
 	"regexp"
 	"sync"
 	"sync/atomic"
+	"time"
 
 	"pgregory.net/rapid"
 
@@ -33,6 +34,9 @@ type SPlan struct {
 	Readers  int   `json:"readers"`
 	Lists    int   `json:"lists"`
 	Pattern  []int `json:"pattern"` // writer: index of the volatile resource toggled at each step (cycled)
+	// CtxReaders goroutines keep binding contexts to the teardown of the volatile resources while the writer removes,
+	// re-adds and tears them down; the writer ends by removing all of them, so every such context must end up cancelled.
+	CtxReaders int `json:"ctx_readers,omitempty"`
 }
 
 // GenS draws a stress plan.
@@ -46,6 +50,7 @@ func GenS(t *rapid.T) SPlan {
 	}
 
 	p.Pattern = rapid.SliceOfN(rapid.IntRange(0, p.Volatile-1), 1, 12).Draw(t, "pattern")
+	p.CtxReaders = rapid.IntRange(0, 3).Draw(t, "ctxreaders")
 
 	return p
 }
@@ -96,15 +101,56 @@ func RunS(p SPlan) (v hk.Verdict) {
 			i := p.Pattern[n%len(p.Pattern)]
 			r := hres.New("n1", "TA", fmt.Sprintf("a%02d", i), "volatile")
 
-			if present[i] {
+			switch {
+			case present[i] && n%3 == 0:
+				// tear it down first (an update event), it is removed on its next turn
+				r.Metadata().SetPhase(resource.PhaseTearingDown)
+				c.CachePut(r)
+
+				continue
+			case present[i]:
 				c.CacheRemove(r)
-			} else {
+			default:
 				c.CachePut(r)
 			}
 
 			present[i] = !present[i]
 		}
+
+		for i := range present {
+			c.CacheRemove(hres.New("n1", "TA", fmt.Sprintf("a%02d", i), "volatile"))
+		}
 	}()
+
+	var (
+		boundMu sync.Mutex
+		bound   []context.Context
+	)
+
+	for ri := 0; ri < p.CtxReaders; ri++ {
+		wg.Add(1)
+
+		go func() {
+			defer wg.Done()
+
+			<-start
+
+			for n := 0; n < p.Lists && failure.Load() == nil; n++ {
+				id := fmt.Sprintf("a%02d", (n+ri)%p.Volatile)
+
+				tctx, err := c.ContextWithTeardown(ctx, resource.NewMetadata("n1", "TA", id, resource.VersionUndefined))
+				if err != nil {
+					failure.Store(fmt.Sprintf("ctx reader %d: ContextWithTeardown(%s) failed: %v", ri, id, err))
+
+					return
+				}
+
+				boundMu.Lock()
+				bound = append(bound, tctx)
+				boundMu.Unlock()
+			}
+		}()
+	}
 
 	idq := state.WithIDQuery(resource.IDRegexpMatch(regexp.MustCompile("^s")))
 
@@ -190,6 +236,26 @@ func RunS(p SPlan) (v hk.Verdict) {
 		v.Failf("%v", f)
 
 		return v
+	}
+
+	// every volatile resource is gone now: each context bound to the teardown of one of them must be cancelled (the
+	// cancellation is handed over by a goroutine per context: give those a moment)
+	deadline := time.Now().Add(5 * time.Second)
+
+	for _, tctx := range bound {
+		for tctx.Err() == nil && time.Now().Before(deadline) {
+			time.Sleep(time.Millisecond)
+		}
+
+		if tctx.Err() == nil {
+			v.Failf("a context bound to the teardown of a cached resource is still live although the resource has been removed from the cache (%d contexts were bound while the writer was running)", len(bound))
+
+			return v
+		}
+	}
+
+	if len(bound) > 0 {
+		v.Label("teardown-contexts-bound-during-writes")
 	}
 
 	if overlaps.Load() > 0 {
